@@ -11,6 +11,7 @@ mod c14;
 mod store;
 mod c01;
 mod c03;
+mod c04;
 
 fn main() {
     std::panic::set_hook(Box::new(|_| {}));
@@ -19,6 +20,7 @@ fn main() {
         "C14" => c14::run(&args),
         "C01" => c01::run(&args),
         "C03" => c03::run(&args),
+        "C04" => c04::run(&args),
         "C11" => c11::run(&args),
         "C16" => c16::run(&args),
         "C05" => c05::run(&args),
